@@ -216,7 +216,8 @@ qstr QXmppUtils_generateStanzaHash(int length) __CPROVER_assigns() __CPROVER_ens
 #define DIGEST_VERIFIED_NOW (self->d->saslServer != NULL && self->d->saslServer->mechanism == S("DIGEST-MD5") && gh_respond_calls != __CPROVER_old(gh_respond_calls) && \
   gh_respond_self == self->d->saslServer && gh_respond_old_step == 1 && self->d->saslServer->m_step == 2)
 #define STANDARD_FRAME (__CPROVER_is_fresh(self, sizeof(*self)) && __CPROVER_is_fresh(self->d, sizeof(*self->d)) && __CPROVER_is_fresh(self->d->idleTimer, sizeof(QTimer)) && \
-  __CPROVER_is_fresh(self->d->socket.m_socket, sizeof(QSslSocket)))
+  __CPROVER_is_fresh(self->d->socket.m_socket, sizeof(QSslSocket)) && self->d->q == self /* type invariant: d(new QXmppIncomingClientPrivate(this)) */ && \
+  QXmppIncomingClientPrivate_ENUMS_VALID(self->d) /* enum members hold declared enumerators */)
 
 /* recorded findings: each is keyed by an input class (discriminator); -D<F>_EXCLUDED removes exactly that class from the verified
    contract, -D<F>_ONLY restricts the same contract to it (that proof is expected to fail while the finding is open) */
